@@ -112,6 +112,7 @@ static void mmRun(uint64_t seed, bool thorough, bool faults, MMResult &R, std::s
     }
     const long nops = maxops >= 0 ? maxops : (thorough ? 2000 + long(G.below(8000)) : 200 + long(G.below(1500)));
     const unsigned relPct = 30 + unsigned(G.below(40));   // release probability
+    const bool huge = G.chance(1, 2);
     const unsigned failPermille = faults ? 5 + unsigned(G.below(20)) : 0;
     std::ostringstream c;
     c << styleName(style) << " gran=" << gran << " sizes=" << lo << ".." << hi << " ops=" << nops
@@ -132,6 +133,9 @@ static void mmRun(uint64_t seed, bool thorough, bool faults, MMResult &R, std::s
         if (!doRelease) {
             size_t want = lo + size_t(G.below(hi - lo + 1));
             if (G.chance(1, 8)) want = lo;      // minimum
+            // now and then one request that dwarfs everything so far (larger
+            // than the whole arena: growth must cover the request itself)
+            if (style != 4 && huge && G.chance(1, 150)) want = 500 + size_t(G.below(4000));
             size_t got = want;
             const bool inject = failPermille && G.below(1000) < failPermille;
             if (inject) { g_fail_armed = true; g_fail_countdown = 1; }
@@ -245,7 +249,8 @@ int mmMain(int argc, char** argv)
         const uint64_t rs = mix64(mix64(seed, 0xC18), uint64_t(i));
         const bool faults = (i % 3) == 2;
         MMResult R; std::string cfg;
-        printf("{\"begin\":%ld}\n", i);
+        printf("{\"begin\":%ld,\"runseed\":\"%llu\",\"faults\":%d}\n", i, (unsigned long long) rs, faults ? 1 : 0);
+        fflush(stdout);
         mmRun(rs, thorough, faults, R, cfg);
         std::string replay;
         if (!R.ok) {
